@@ -28,6 +28,11 @@ type State struct {
 	lastSavedHash      bitcoin.Hash32
 	pendingSync        bool // The peer has notified us of all blocks. Now we just have to process to catch up.
 	lock               sync.Mutex
+
+	// processingLock is held while a block is processed and while the chain is reverted for a
+	// reorg, so that a block is never added, announced and indexed against a chain that is being
+	// reverted underneath it.
+	processingLock sync.Mutex
 }
 
 func NewState() *State {
@@ -69,6 +74,15 @@ func (state *State) Reset() {
 	state.blocksToRequest = state.blocksToRequest[:0]
 	state.pendingSync = false
 	state.pendingBlockSize = 0
+}
+
+// LockProcessing locks out block processing and chain reverts from each other.
+func (state *State) LockProcessing() {
+	state.processingLock.Lock()
+}
+
+func (state *State) UnlockProcessing() {
+	state.processingLock.Unlock()
 }
 
 func (state *State) ProtocolVersion() uint32 {
